@@ -219,6 +219,9 @@ struct Args
   otel::common::AttributeValue body;
   const otel::common::KeyValueIterable *attrs;
   const otel::common::KeyValueIterable *marker;  // {"vh.marker": n}
+  const otel::common::KeyValueIterable *attrs2;  // a second container re-binding some keys of attrs
+  lg::Severity sev2;
+  tr::TraceFlags tf2;
   tr::SpanContext ctx = tr::SpanContext::GetInvalid();
   tr::TraceId tid;
   tr::SpanId sid;
@@ -233,6 +236,9 @@ struct Form
   const char *name;
   bool sev, body, attrs, ctx, ids, ts, ev;
   void (*emit)(lg::Logger &, Args &);
+  // arguments of one call that write the same field: they apply left to right (last one wins)
+  // 0 none, 1 attrs then attrs2, 2 ctx then tf2, 3 tf2 then ctx, 4 sev then sev2
+  int overlap = 0;
 };
 
 #define EV(a) lg::EventId((a).ev_id, (a).ev_name)
@@ -271,6 +277,16 @@ const Form kForms[] = {
      [](lg::Logger &l, Args &a) { l.Error(*a.marker, a.body); }},
     {"Warn(E,B,M,C)", true, true, false, true, false, false, true,
      [](lg::Logger &l, Args &a) { l.Warn(EV(a), a.body, *a.marker, a.ctx); }},
+    {"(S,B,A,A2,M)", true, true, true, false, false, false, false,
+     [](lg::Logger &l, Args &a) { l.EmitLogRecord(a.sev, a.body, *a.attrs, *a.attrs2, *a.marker); }, 1},
+    {"(A,M,A2,B)", false, true, true, false, false, false, false,
+     [](lg::Logger &l, Args &a) { l.EmitLogRecord(*a.attrs, *a.marker, *a.attrs2, a.body); }, 1},
+    {"(C,Tf2,M,B)", false, true, false, true, false, false, false,
+     [](lg::Logger &l, Args &a) { l.EmitLogRecord(a.ctx, a.tf2, *a.marker, a.body); }, 2},
+    {"(Tf2,C,M,B)", false, true, false, true, false, false, false,
+     [](lg::Logger &l, Args &a) { l.EmitLogRecord(a.tf2, a.ctx, *a.marker, a.body); }, 3},
+    {"(S,S2,B,M)", true, true, false, false, false, false, false,
+     [](lg::Logger &l, Args &a) { l.EmitLogRecord(a.sev, a.sev2, a.body, *a.marker); }, 4},
 };
 constexpr size_t kNumForms = sizeof(kForms) / sizeof(kForms[0]);
 
@@ -356,6 +372,15 @@ void do_emit(vh::Reader &rd, Setup &s, ThreadState &ts, int64_t marker, std::vec
     args.body = sg::to_api(body, a, rd.coin());
     sg::ArenaKV akv(attr_list, a, rd.coin());
     sg::ArenaKV mkv(marker_l, a);
+    // a second container that re-binds up to two keys of the first one and adds one of its own
+    sg::KVList attr_list2;
+    for (size_t q = 0; q < attr_list.size() && q < 2; ++q)
+      attr_list2.emplace_back(attr_list[q].first, sg::MValue(static_cast<int64_t>(1000 + q)));
+    attr_list2.emplace_back("second.only", sg::MValue(true));
+    sg::ArenaKV akv2(attr_list2, a);
+    args.attrs2 = &akv2;
+    args.sev2   = static_cast<lg::Severity>(1 + (sev % 24));
+    args.tf2    = tr::TraceFlags(static_cast<uint8_t>(xctx.trace_flags().flags() ^ 0x01));
     args.attrs   = &akv;
     args.marker  = &mkv;
     args.ctx     = xctx;
@@ -384,6 +409,24 @@ void do_emit(vh::Reader &rd, Setup &s, ThreadState &ts, int64_t marker, std::vec
       e.ts_given = true;
       e.ts_ns    = ts_ns;
     }
+    switch (f.overlap)
+    {
+      case 1:
+        sg::apply_last_wins(e.attrs, attr_list2);
+        break;
+      case 2:
+        e.flags = args.tf2.flags();
+        break;
+      case 3:
+        break;  // the SpanContext is applied last: its flags win
+      case 4:
+        e.severity = static_cast<int>(args.sev2);
+        break;
+      default:
+        break;
+    }
+    if (f.overlap)
+      notes += " " + label + "[overlapping-arguments]";
     if (f.ev)
     {
       e.event_given = true;
